@@ -190,6 +190,7 @@ def run(ctx):
     ctx.ob('C13.2', 'workspace', 'sinks-examined', True, '%d sink operands in tool / workspace / task / checkpoint code examined, taint fixpoint in %d rounds' % (nsinks, T.rounds))
 
     c134(ctx)
+    c137(ctx)
     # ---------------------------------------------------------------- C13.6
     ctx.rule('C13.6', 'the patch parser is a resolver for every path it hands out: each path field (path, moved_to) of every PatchOp the parser builds derives from a parse_rel_path result — Patch::parse is treated as a sanitiser by C13.2, so a field that bypasses parse_rel_path (a `Move to:` target taken as written) is an unchecked path with a clean label.')
     n6 = 0
@@ -275,6 +276,61 @@ def run(ctx):
         # `ls` / `grep` may default to the root when no path is given: effects not dominated by a resolver must not use tainted data (C13.2)
         bad = [s for s in bad if any(T.tainted(f, a) for a in s.args)]
         ctx.ob('C13.3', f, 'resolve-before-effect', not bad, 'every fs effect that uses the argument is dominated by resolve_path (%d effect sites)' % len(effs), line=res[0].line)
+
+
+# ---------------------------------------------------------------------- C13.7 a sibling of the root is outside the root
+def c137(ctx):
+    P = ctx.prog
+    ctx.rule('C13.7', 'a resolved path may be the root itself (the resolvers accept `.`, `./` and the empty string): a name derived from a resolver result by '
+             'replacing its last component (Path::with_extension / with_file_name, PathBuf::set_extension / set_file_name / pop) is a SIBLING of that path — for the root, '
+             'an entry of the root\'s parent, outside the workspace. Every such derivation in the tool / workspace / task code is reachable only through the not-equal edge '
+             'of a comparison of the resolved path with the root (or sits behind a resolver that makes that comparison itself). The write tool built `<parent>/<root>.tmp-<uuid>` '
+             'for path "." and left it there (the repaired F-C13-write-root).')
+    SIB = r'^std::path::Path::(with_extension|with_file_name|with_added_extension)$|^std::path::PathBuf::(set_extension|set_file_name|pop|add_extension)$'
+    PEQ = r'^<std::path::(PathBuf|Path) as core::cmp::PartialEq(<.*>)?>::(eq|ne)$'
+    res_rx = '|'.join('^' + re.escape(r_) + '$' for r_ in RESOLVERS)
+    n = 0
+    for p_, f in sorted(P.fns.items()):
+        if not re.search(SCOPE, p_):
+            continue
+        rs = [c for c in f.calls(res_rx) if c.dest is not None]
+        if not rs:
+            continue
+        for s_ in f.calls(SIB):
+            if not s_.args:
+                continue
+            rl = reads_locals(f, s_.args[0]) | {(op_place(s_.args[0]) or {}).get('l')}
+            srcs = [c for c in rs if c.dest['l'] in rl]
+            if not srcs:
+                continue
+            n += 1
+            ok, why = False, ''
+            for c in srcs:
+                # (a) the resolver excludes the root itself
+                rb = P.fns.get(c.callee)
+                if rb is not None and rb.calls(PEQ):
+                    ok, why = True, 'behind %s, which compares its result with the root' % c.name
+                    break
+                # (b) compared with the root on the way here
+                for q in f.calls(PEQ):
+                    if not f.dom(q.bb, s_.bb) or q.dest is None:
+                        continue
+                    if not any(c.dest['l'] in (reads_locals(f, a) | {(op_place(a) or {}).get('l')}) for a in q.args):
+                        continue
+                    sw = f.switch_on_call(q)
+                    tgts = []
+                    for (bi, on, ts, els) in switches(f):
+                        if f.dom(q.bb, bi) and f.dom(bi, s_.bb) and (q.dest['l'] in reads_locals(f, on) or q.dest['l'] == (op_place(on) or {}).get('l')):
+                            tgts = list(ts.values()) + ([els] if els is not None else [])
+                            if any(not f.can_reach(t, s_.bb) for t in tgts):
+                                ok, why = True, 'reachable only past a comparison of the resolved path with the root (the equal edge leaves)'
+                if ok:
+                    break
+            ctx.ob('C13.7', f, 'sibling-of-resolved-path:' + s_.name, ok,
+                   ('%s on a resolver result — %s' % (s_.name, why)) if ok else
+                   '%s on the result of %s with no comparison against the root before it: for the path `.` (or ``) the derived name is an entry of the root\'s PARENT directory' % (s_.name, srcs[0].name),
+                   line=s_.line)
+    ctx.floor('C13.7', 'sibling names derived from a resolver result', n, 1)
 
 
 def c134(ctx):
